@@ -116,17 +116,21 @@ def generate_cpp(fcp):
     return files
 
 
-def all_headers(files, exclude=()):
+def all_headers(files, exclude=(), order="default"):
     names = [n for n in sorted(files) if n.endswith(".h") and n not in exclude]
-    first = [n for n in ("fcp.h", "dynamic.h", "can.h", "can_static_schema.h", "can_dynamic_schema.h", "rpc.h") if n in names]
+    lead = ("fcp.h", "dynamic.h", "can.h", "can_static_schema.h", "can_dynamic_schema.h", "rpc.h")
+    if order == "protocols-first":
+        # the per-protocol headers (fcp_can.h ...) ahead of the CAN wrappers: any order of the generator's own headers must work
+        lead = ("fcp.h",) + tuple(n for n in names if n.startswith("fcp_")) + lead[1:]
+    first = [n for n in lead if n in names]
     rest = [n for n in names if n not in first]
     return "".join('#include "%s"\n' % n for n in first + rest)
 
 
-def build(files, extra_cpp="", sanitize=False, exclude_headers=()):
+def build(files, extra_cpp="", sanitize=False, exclude_headers=(), header_order="default"):
     """-> (exe path | None, error text | None).  Cached by content."""
     flags = BASE_FLAGS + (SAN_FLAGS if sanitize else [])
-    hdr = all_headers(files, exclude_headers)
+    hdr = all_headers(files, exclude_headers, header_order)
     h = hashlib.sha256()
     for name in sorted(files):
         h.update(name.encode())
